@@ -1,7 +1,10 @@
 /-
   C04 — zone-aware date-times: one instant, many wall clocks.
-  Property statements only (helper lemmas: Proofs/ZonedL.lean, on top of the proved packed-date
-  specification of C01 — Proofs/DateL.lean — and the proved offset shift of C07 — Proofs/TimeL.lean).
+  Property statements only (helper lemmas: Proofs/ZonedL.lean, Proofs/ZonedDateL.lean,
+  Proofs/ZonedStepL.lean, on top of the proved packed-date specification of C01 — Proofs/DateL.lean —,
+  the proved offset shift of C07 — Proofs/TimeL.lean —, the proved day arithmetic of C03 —
+  Proofs/DateArithL.lean — and the proved month stepping / field replacement of C08 —
+  Proofs/DateOpsL.lean; the latter two are extended to the two headroom years in ZonedDateL).
 
   Vocabulary (Spec/InstantSpec.lean, Spec/ZonedSpec.lean):
     `instSecs dt`      whole seconds since 1970-01-01T00:00:00 of a naive reading, through the
@@ -12,13 +15,19 @@
     `NDTInv`/`DateInv` the same inside the supported range;  `ZInv z` = `NDTInv z.utc ∧ |off| < 86400`;
     `InRangeSecs s`    the date of second `s` lies in `[NaiveDate::MIN, NaiveDate::MAX]`;
     `InUtcRange s f`   `MIN_UTC ≤ (s, f) ≤ MAX_UTC` in `NaiveDateTime`'s derived order;
-    `cmpKey`           lexicographic three-way comparison of (second, nanosecond field).
+    `cmpKey`           lexicographic three-way comparison of (second, nanosecond field);
+    `GeMinUtc`/`LeMaxUtc`  the two halves of `InUtcRange` (`utc_range_halves`);
+    `ActsOnWall z t r` "`r` is the value at `z`'s offset whose wall clock is the target reading `t`,
+                       filtered to `MIN_UTC ..= MAX_UTC`" (`ActsOnWallWith ok` for another filter);
+    `ymdReading?`/`yoReading?`/`yearReading?`  target readings of the calendar-field replacements;
+    `SteppedDays z l z' k`  `z'` is `z` with its wall clock `l` moved by `k` whole days;
+    `addMonths?` (C08) month stepping with clamped day; `dayNumOf` (C01) day number of a date.
   `Zoned` is `DateTime<FixedOffset>`; `DateTime<Utc>` is the case `off = 0`.
 -/
-import Chrono.Proofs.ZonedL
+import Chrono.Proofs.ZonedStepL
 
 namespace Chrono.Props.C04
-open Chrono Chrono.M Chrono.Spec Chrono.Proofs Chrono.Extracted
+open Chrono Chrono.M Chrono.Spec Chrono.Proofs Chrono.Proofs.ZN Chrono.Extracted
 
 /-! ### Offsets -/
 
@@ -375,55 +384,233 @@ example :
     Zoned.with_time ⟨⟨dateOfYo 2024 60, ⟨3600, 0⟩⟩, 7200⟩ ⟨0, 5⟩ = .ok (some ⟨⟨dateOfYo 2024 59, ⟨79200, 5⟩⟩, 7200⟩) := by
   decide +kernel
 
-/-! ### Day and month stepping, calendar-field replacement: compared, partly proved -/
+/-! ### Calendar-field replacement -/
 
-/-- PARTIAL.  What is proved about day / month stepping: `Days(0)` / `Months(0)` give the value back
-(for `checked_sub_days(0)` and the month forms this goes through the wall clock and back, also from a
-headroom wall clock).  Missing for the full statement "the wall clock moves by n days / n months with
-the day clamped, filtered to the range": the specification of `NaiveDate::add_days` (C03) and of
-`diff_months` (C08) on the extended calendar; with those, `map_local_spec`'s argument applies
-verbatim.  All four operations, `with_year/month/day/ordinal(0)` and `with_ymd_and_hms` are compared
-with the crate and checked by the independent wall-clock oracle of the harness. -/
-theorem stepping_zero_partial (z : Zoned) (hz : ZInv z) :
-    Zoned.checked_add_days z 0 = .ok (some z) ∧
-    Zoned.checked_add_months z 0 = .ok (some z) ∧ Zoned.checked_sub_months z 0 = .ok (some z) := by
-  obtain ⟨l, h1, h2, h3, h4, _, _⟩ := naive_local_spec z hz
-  have hback : Zoned.from_local_datetime z.off l = .ok (some z) := by
-    obtain ⟨r, a, b, c, _⟩ := from_local_spec z.off l hz.2 h2
-    have hin : InRangeSecs (instSecs l - z.off) := by
-      rw [h3]; unfold wallSecs
-      rw [show instSecs z.utc + z.off - z.off = instSecs z.utc by omega]
-      have hue := ((dateInv_iff z.utc.date).mp hz.1.1)
-      obtain ⟨eu, vu⟩ := ext_eq z.utc.date hue.1
-      rw [instSecs_ext z.utc hue.1, inrange_iff _ _ ⟨hz.1.2.1, hz.1.2.2.1⟩, range_iff _ _ ⟨vu.2.2.1, vu.2.2.2⟩]
-      exact hue.2
-    cases r with
-    | none => exact absurd hin (c rfl)
-    | some z' =>
-      obtain ⟨b1, b2, b3, b4, _⟩ := b z' rfl
-      rw [a]; congr 2
-      have : z'.utc = z.utc := by
-        apply ndt_unique _ _ b2 ⟨((dateInv_iff z.utc.date).mp hz.1.1).1, hz.1.2⟩
-        · rw [b3, h3]; unfold wallSecs; omega
-        · rw [b4, h4]
-      cases z'; cases z; simp_all
-  refine ⟨rfl, ?_, ?_⟩
-  · unfold Zoned.checked_add_months NaiveDT.checked_add_months NaiveDT.mapDate ZF.checked_add_months
-    rw [h1, bind_ok', if_pos rfl, bind_ok', bind_ok']
-    exact hback
-  · unfold Zoned.checked_sub_months NaiveDT.checked_sub_months NaiveDT.mapDate ZF.checked_sub_months
-    rw [h1, bind_ok', if_pos rfl, bind_ok', bind_ok']
-    exact hback
+/-- what the target readings of the calendar-field replacements are: `ymdReading? y m d t` exists
+exactly when (m, d) is a date of year `y` (any year of the extended calendar) and then has exactly
+those fields and the time `t`; `yoReading? y o t` likewise for the ordinal -/
+theorem reading_fields (y : Int) (m d o : Nat) (t : Time) :
+    (ymdReading? y m d t = none ↔ ¬ (1 ≤ m ∧ m ≤ 12 ∧ 1 ≤ d ∧ d ≤ monthLen y m)) ∧
+    (∀ nl, ymdReading? y m d t = some nl →
+      nl.date.year = y ∧ nl.date.month = .ok m ∧ nl.date.day = .ok d ∧ nl.time = t) ∧
+    (yoReading? y o t = none ↔ ¬ (1 ≤ o ∧ o ≤ yearLen y)) ∧
+    (∀ nl, yoReading? y o t = some nl → nl.date.year = y ∧ nl.date.ordinal = o ∧ nl.time = t) := by
+  have hyl := yearLen_ge y
+  refine ⟨?_, ?_, ?_, ?_⟩
+  · unfold ymdReading?
+    rw [← valid_iff]
+    constructor
+    · intro h hc; rw [if_pos hc] at h; cases h
+    · intro h; exact ite_neg' _ _ h
+  · intro nl h
+    unfold ymdReading? at h
+    by_cases hc : validYmd y m d = true
+    · rw [if_pos hc] at h
+      have := Option.some.inj h
+      subst this
+      obtain ⟨f1, f2, f3, _⟩ := ymd_fields y m d hc
+      exact ⟨f1, f2, f3, rfl⟩
+    · rw [if_neg hc] at h; cases h
+  · unfold yoReading?
+    constructor
+    · intro h hc; rw [if_pos hc] at h; cases h
+    · intro h; exact ite_neg' _ _ h
+  · intro nl h
+    unfold yoReading? at h
+    by_cases hc : 1 ≤ o ∧ o ≤ yearLen y
+    · rw [if_pos hc] at h
+      have := Option.some.inj h
+      subst this
+      obtain ⟨f1, f2, _⟩ := dateOfYo_fields y o (by omega)
+      exact ⟨f1, f2, rfl⟩
+    · rw [if_neg hc] at h; cases h
 
-example : Zoned.checked_sub_days ⟨NaiveDT.MIN, -3600⟩ 0 = .ok (some ⟨NaiveDT.MIN, -3600⟩) ∧
-    Zoned.checked_add_days ⟨NaiveDT.MIN, -3600⟩ 1 = .ok (some ⟨⟨dateOfYo MIN_YEAR 2, ⟨0, 0⟩⟩, -3600⟩) ∧
-    Zoned.checked_add_days ⟨NaiveDT.MAX, 3600⟩ 1 = .ok none ∧
-    Zoned.checked_add_months ⟨⟨dateOfYo 2024 31, ⟨0, 0⟩⟩, -3600⟩ 1 =
-      .ok (some ⟨⟨dateOfYo 2024 61, ⟨0, 0⟩⟩, -3600⟩) ∧
+/-- **with_date_field_spec.**  `with_year / with_month(0) / with_day(0) / with_ordinal(0)` are instances
+of `map_local_spec` with C08's calendar meaning.  With `l` the wall clock of `z` (possibly in a headroom
+day), `y` its year, `m`, `d` its month and day: the target reading keeps the time of day and all
+calendar fields but the named one (`ymdReading?` / `yoReading?`, see `reading_fields`; the 0-based forms
+aim at `v + 1`, and `u32::MAX` has no target); `with_year` keeps the wall clock itself when the year
+is unchanged — also a headroom year — and otherwise accepts only years of the supported range
+(`yearReading?`).  `ActsOnWall z target r` says: a result keeps the offset, is well formed, lies in
+`MIN_UTC ..= MAX_UTC`, denotes `target − offset` and its wall clock IS the target; `None` exactly when
+there is no such date or that instant is outside `MIN_UTC ..= MAX_UTC`.  Never a panic, every `u32`
+(indeed every natural) argument, every `i32` (indeed every integer) year. -/
+theorem with_date_field_spec (z : Zoned) (hz : ZInv z) (v : Nat) (y' : Int) :
+    ∃ l, Zoned.overflowing_naive_local z = .ok l ∧ ExtNDTInv l ∧ instSecs l = wallSecs z ∧
+    (∃ r, Zoned.with_year z y' = .ok r ∧ ActsOnWall z (yearReading? l y') r) ∧
+    (∃ r, Zoned.with_month z v = .ok r ∧ ActsOnWall z
+      (ymdReading? l.date.year v (dayOfYo l.date.year l.date.ordinal.toNat) l.time) r) ∧
+    (∃ r, Zoned.with_month0 z v = .ok r ∧ ActsOnWall z
+      (ymdReading? l.date.year (v + 1) (dayOfYo l.date.year l.date.ordinal.toNat) l.time) r) ∧
+    (∃ r, Zoned.with_day z v = .ok r ∧ ActsOnWall z
+      (ymdReading? l.date.year (monthOfYo l.date.year l.date.ordinal.toNat) v l.time) r) ∧
+    (∃ r, Zoned.with_day0 z v = .ok r ∧ ActsOnWall z
+      (ymdReading? l.date.year (monthOfYo l.date.year l.date.ordinal.toNat) (v + 1) l.time) r) ∧
+    (∃ r, Zoned.with_ordinal z v = .ok r ∧ ActsOnWall z (yoReading? l.date.year v l.time) r) ∧
+    (∃ r, Zoned.with_ordinal0 z v = .ok r ∧ ActsOnWall z (yoReading? l.date.year (v + 1) l.time) r) := by
+  obtain ⟨l, h1, h2, h3, _⟩ := naive_local_spec z hz
+  exact ⟨l, h1, h2, h3, zoned_with_date_fields z hz l h1 v y'⟩
+
+/-- the wall clock's own month and day are `monthOfYo` / `dayOfYo` of its year and ordinal (C01), so
+the targets above are "same month", "same day" -/
+theorem wall_month_day (z : Zoned) (hz : ZInv z) (l : NaiveDT)
+    (hl : Zoned.overflowing_naive_local z = .ok l) :
+    l.date.month = .ok (monthOfYo l.date.year l.date.ordinal.toNat) ∧
+    l.date.day = .ok (dayOfYo l.date.year l.date.ordinal.toNat) := by
+  obtain ⟨hext, _⟩ := wall_date_cases z hz l hl
+  obtain ⟨el, vl⟩ := ext_eq l.date hext.1
+  obtain ⟨m1, m2, _, _⟩ := month_day_spec l.date.year l.date.ordinal.toNat vl.2.2.1 vl.2.2.2
+  rw [← el] at m1 m2
+  exact ⟨m1, m2⟩
+
+/-- non-vacuity: leap day → `with_year` to a common year has no target; Jan 31 → `with_month(2)` has
+none; replacement across midnight at +02:00 (28 Feb 23:00Z is 29 Feb 01:00 local; day 1 gives 1 Feb 01:00 local = 31 Jan 23:00Z); headroom wall clock: `with_ordinal(366)` keeps it,
+`with_ordinal(365)` and `with_month(11)` leave the range, `with_year(MIN_YEAR − 1)` (unchanged year)
+keeps the value, `with_year(MIN_YEAR)` moves into the range; `u32::MAX` -/
+example :
+    Zoned.with_year ⟨⟨dateOfYo 2024 60, ⟨0, 0⟩⟩, 0⟩ 2023 = .ok none ∧
+    Zoned.with_year ⟨⟨dateOfYo 2024 60, ⟨0, 0⟩⟩, 0⟩ 2028 = .ok (some ⟨⟨dateOfYo 2028 60, ⟨0, 0⟩⟩, 0⟩) ∧
+    Zoned.with_month ⟨⟨dateOfYo 2024 31, ⟨0, 0⟩⟩, 0⟩ 2 = .ok none ∧
+    Zoned.with_day ⟨⟨dateOfYo 2024 59, ⟨82800, 0⟩⟩, 7200⟩ 1 = .ok (some ⟨⟨dateOfYo 2024 31, ⟨82800, 0⟩⟩, 7200⟩) ∧
     Zoned.with_ordinal ⟨NaiveDT.MIN, -3600⟩ 366 = .ok (some ⟨NaiveDT.MIN, -3600⟩) ∧
     Zoned.with_ordinal ⟨NaiveDT.MIN, -3600⟩ 365 = .ok none ∧
+    Zoned.with_month ⟨NaiveDT.MIN, -3600⟩ 11 = .ok none ∧
     Zoned.with_year ⟨NaiveDT.MIN, -3600⟩ (MIN_YEAR - 1) = .ok (some ⟨NaiveDT.MIN, -3600⟩) ∧
-    Zoned.with_ymd_and_hms 3600 1970 1 1 0 30 0 = .ok (some ⟨⟨dateOfYo 1969 365, ⟨84600, 0⟩⟩, 3600⟩) := by
+    Zoned.with_year ⟨NaiveDT.MIN, -3600⟩ MIN_YEAR = .ok (some ⟨⟨dateOfYo (MIN_YEAR + 1) 1, ⟨0, 0⟩⟩, -3600⟩) ∧
+    Zoned.with_month0 ⟨⟨dateOfYo 2024 31, ⟨0, 0⟩⟩, 0⟩ 4294967295 = .ok none ∧
+    Zoned.with_day0 ⟨⟨dateOfYo 2024 31, ⟨0, 0⟩⟩, 0⟩ 0 = .ok (some ⟨⟨dateOfYo 2024 1, ⟨0, 0⟩⟩, 0⟩) := by
   decide +kernel
+
+/-! ### Day and month stepping -/
+
+/-- **stepping_spec.**  With `l` the wall clock of a well-formed `z` (possibly in a headroom day):
+
+* `checked_add_days(Days(0))` returns `z`.  For `n > 0` the wall-clock *date* moves by `n` days, time of
+  day and offset are kept (`SteppedDays`: the instant moves by `n·86400` s).  It succeeds exactly when
+  (a) the stepped wall-clock date is itself a date of the supported range — a result whose own wall
+  clock would fall in the headroom day is refused, because `NaiveDate::add_days` validates the year —
+  and (b) the stepped instant is `≤ MAX_UTC` (the only filter this operation applies; `≥ MIN_UTC`
+  holds automatically).
+* `checked_sub_days(Days(n))`, every `n ≥ 0` (the code has no short cut for 0, `Days(0)` goes through the
+  wall clock and back and returns `z`, also from a headroom wall clock): succeeds exactly when
+  (a) `n = 0` or the stepped wall-clock date is a date of the supported range, and (b) the stepped
+  instant is `≥ MIN_UTC` (the only filter applied; a leap-second reading in the last second of MAX
+  is not filtered here).
+* `checked_add_months` / `checked_sub_months`: `Months(0)` returns `z`; otherwise the wall-clock date
+  is stepped by C08's `addMonths?` (year-month index moved by `k`, day clamped to the target month,
+  `None` when the target year leaves the supported range — C08 `months_target`), the time of day is
+  kept, and the result exists exactly when that date exists and `new wall clock − offset` is
+  representable (`InRangeSecs`; no `MIN_UTC ..= MAX_UTC` filter is applied).
+
+Counts: all of `u64` for days, all of `u32` (indeed every natural) for months.  Never a panic. -/
+theorem stepping_spec (z : Zoned) (hz : ZInv z) :
+    ∃ l, Zoned.overflowing_naive_local z = .ok l ∧ ExtNDTInv l ∧ instSecs l = wallSecs z ∧
+    Zoned.checked_add_days z 0 = .ok (some z) ∧
+    (∀ n : Int, 0 < n → n ≤ 18446744073709551615 →
+      ∃ r, Zoned.checked_add_days z n = .ok r ∧
+        (r = none ↔ ¬ ((DAY_MIN ≤ dayNumOf l.date + n ∧ dayNumOf l.date + n ≤ DAY_MAX) ∧
+                       LeMaxUtc (instSecs z.utc + n * 86400) z.utc.time.frac)) ∧
+        ∀ z', r = some z' → SteppedDays z l z' n) ∧
+    (∀ n : Int, 0 ≤ n → n ≤ 18446744073709551615 →
+      ∃ r, Zoned.checked_sub_days z n = .ok r ∧
+        (r = none ↔ ¬ ((n = 0 ∨ (DAY_MIN ≤ dayNumOf l.date - n ∧ dayNumOf l.date - n ≤ DAY_MAX)) ∧
+                       GeMinUtc (instSecs z.utc - n * 86400))) ∧
+        ∀ z', r = some z' → SteppedDays z l z' (-n)) ∧
+    (∀ k : Nat,
+      (∃ r, Zoned.checked_add_months z k = .ok r ∧ (k = 0 → r = some z) ∧
+        (0 < k → ActsOnWallWith (fun s _ => InRangeSecs s) z
+          ((addMonths? l.date.year (monthOfYo l.date.year l.date.ordinal.toNat)
+              (dayOfYo l.date.year l.date.ordinal.toNat) k).map fun nd => ⟨nd, l.time⟩) r)) ∧
+      (∃ r, Zoned.checked_sub_months z k = .ok r ∧ (k = 0 → r = some z) ∧
+        (0 < k → ActsOnWallWith (fun s _ => InRangeSecs s) z
+          ((addMonths? l.date.year (monthOfYo l.date.year l.date.ordinal.toNat)
+              (dayOfYo l.date.year l.date.ordinal.toNat) (-(k : Int))).map fun nd => ⟨nd, l.time⟩) r))) := by
+  obtain ⟨l, h1, h2, h3, _⟩ := naive_local_spec z hz
+  refine ⟨l, h1, h2, h3, rfl, ?_, ?_, ?_⟩
+  · intro n hn1 hn2; exact zoned_add_days z hz l h1 n ⟨hn1, hn2⟩
+  · intro n hn1 hn2; exact zoned_sub_days z hz l h1 n ⟨hn1, hn2⟩
+  · intro k; exact zoned_months z hz l h1 k
+
+/-- the range filter splits into the two one-sided filters used by the day steppers -/
+theorem utc_range_halves (s f : Int) : InUtcRange s f ↔ GeMinUtc s ∧ LeMaxUtc s f := inUtc_iff s f
+
+/-- non-vacuity and the boundary cases: from a headroom wall clock forwards into the range and with
+`Days(0)` backwards; a step that would land in the headroom day is refused although the instant is in
+range (`MIN+2d 01:00Z` at −02:00, minus 2 days); `MAX_UTC` reached exactly and missed by a day;
+`2³²` and `u64::MAX` days are not folded; month stepping clamps the day (wall clock Jan 30 23:00 →
+Feb 29 23:00) and `Months(0)` returns the value -/
+example :
+    Zoned.checked_sub_days ⟨NaiveDT.MIN, -3600⟩ 0 = .ok (some ⟨NaiveDT.MIN, -3600⟩) ∧
+    Zoned.checked_add_days ⟨NaiveDT.MIN, -3600⟩ 1 = .ok (some ⟨⟨dateOfYo MIN_YEAR 2, ⟨0, 0⟩⟩, -3600⟩) ∧
+    Zoned.checked_sub_days ⟨NaiveDT.MIN, -3600⟩ 1 = .ok none ∧
+    Zoned.checked_sub_days ⟨⟨dateOfYo MIN_YEAR 3, ⟨3600, 0⟩⟩, -7200⟩ 2 = .ok none ∧
+    Zoned.checked_sub_days ⟨⟨dateOfYo MIN_YEAR 3, ⟨3600, 0⟩⟩, 0⟩ 2 = .ok (some ⟨⟨dateOfYo MIN_YEAR 1, ⟨3600, 0⟩⟩, 0⟩) ∧
+    Zoned.checked_add_days ⟨⟨dateOfYo MAX_YEAR 364, ⟨86399, 999999999⟩⟩, -3600⟩ 1 = .ok (some ⟨NaiveDT.MAX, -3600⟩) ∧
+    Zoned.checked_add_days ⟨NaiveDT.MAX, 3600⟩ 1 = .ok none ∧
+    Zoned.checked_add_days ⟨NaiveDT.MIN, 0⟩ 4294967296 = .ok none ∧
+    Zoned.checked_sub_days ⟨NaiveDT.MAX, 0⟩ 18446744073709551615 = .ok none ∧
+    Zoned.checked_add_days ⟨NaiveDT.MIN, 0⟩ 191491528 = .ok (some ⟨⟨Date.MAX, ⟨0, 0⟩⟩, 0⟩) ∧
+    Zoned.checked_add_months ⟨⟨dateOfYo 2024 31, ⟨0, 0⟩⟩, -3600⟩ 1 =
+      .ok (some ⟨⟨dateOfYo 2024 61, ⟨0, 0⟩⟩, -3600⟩) ∧
+    Zoned.checked_sub_months ⟨NaiveDT.MIN, -3600⟩ 0 = .ok (some ⟨NaiveDT.MIN, -3600⟩) ∧
+    Zoned.checked_sub_months ⟨NaiveDT.MIN, 0⟩ 1 = .ok none ∧
+    Zoned.checked_add_months ⟨NaiveDT.MIN, -3600⟩ 1 = .ok (some ⟨⟨dateOfYo MIN_YEAR 32, ⟨0, 0⟩⟩, -3600⟩) := by
+  decide +kernel
+
+/-! ### `with_ymd_and_hms` -/
+
+/-- **with_ymd_and_hms_spec.**  `TimeZone::with_ymd_and_hms` for a fixed offset (`Utc`: offset 0), every
+`i32` year and every `u32` (indeed every natural / non-negative) month, day, hour, minute, second:
+never panics; there is a result exactly when the year is in the supported range, (month, day) is a
+date of that year, hour < 24, minute < 60, second < 60 (no leap second through this constructor) and
+`wall clock − offset` is representable; the result has the given offset, is well formed, denotes
+`wall clock − offset`, and `naive_local` reads the wall clock — that calendar date at that time, nanosecond
+0 — back. -/
+theorem with_ymd_and_hms_spec (off : Int) (ho : OffValid off) (y : Int) (m d : Nat) (h mi s : Int)
+    (hh : 0 ≤ h) (hmi : 0 ≤ mi) (hs : 0 ≤ s) :
+    ∃ r, Zoned.with_ymd_and_hms off y m d h mi s = .ok r ∧
+      (r = none ↔ ¬ ((MIN_YEAR ≤ y ∧ y ≤ MAX_YEAR ∧ validYmd y m d = true ∧ h < 24 ∧ mi < 60 ∧ s < 60) ∧
+        InRangeSecs (instSecs ⟨dateOfYo y (ordinalOf y m d), ofFields h mi s 0⟩ - off))) ∧
+      ∀ z, r = some z →
+        (MIN_YEAR ≤ y ∧ y ≤ MAX_YEAR ∧ validYmd y m d = true ∧ h < 24 ∧ mi < 60 ∧ s < 60) ∧
+        z.off = off ∧ ZInv z ∧
+        Zoned.naive_local z = .ok ⟨dateOfYo y (ordinalOf y m d), ofFields h mi s 0⟩ ∧
+        instSecs z.utc = instSecs ⟨dateOfYo y (ordinalOf y m d), ofFields h mi s 0⟩ - off ∧
+        z.utc.time.frac = 0 := by
+  unfold Zoned.with_ymd_and_hms
+  rw [ctor_ymd', bind_ok', hms_iff']
+  by_cases hd : MIN_YEAR ≤ y ∧ y ≤ MAX_YEAR ∧ validYmd y m d = true
+  · rw [if_pos hd]
+    by_cases ht : h < 24 ∧ mi < 60 ∧ s < 60
+    · rw [if_pos ht]
+      dsimp only
+      have hb := ordinal_bounds_c08 y m d hd.2.2
+      have hn : NDTInv ⟨dateOfYo y (ordinalOf y m d), ofFields h mi s 0⟩ :=
+        ⟨(inv_of_yo y _ ⟨hd.1, hd.2.1⟩ hb).1,
+         (ofFields_valid h mi s 0 ⟨hh, ht.1⟩ ⟨hmi, ht.2.1⟩ ⟨hs, ht.2.2⟩ (by omega)).1⟩
+      obtain ⟨r, a, b⟩ := fromLocal_fails_iff off _ ho hn
+      refine ⟨r, a, ?_, ?_⟩
+      · rw [b]
+        constructor
+        · intro h1 h2; exact h1 h2.2
+        · intro h1 h2; exact h1 ⟨⟨hd.1, hd.2.1, hd.2.2, ht⟩, h2⟩
+      · intro z hz
+        rw [hz] at a
+        obtain ⟨c1, c2, c3, _, c5, c6⟩ := local_of_fromLocal off _ ho hn z a
+        exact ⟨⟨hd.1, hd.2.1, hd.2.2, ht⟩, c1, c2, c3, c5, c6⟩
+    · rw [if_neg ht]
+      refine ⟨none, rfl, ?_, by intro z h; cases h⟩
+      simp only [true_iff]
+      intro h1; exact ht h1.1.2.2.2
+  · rw [if_neg hd]
+    refine ⟨none, rfl, ?_, by intro z h; cases h⟩
+    simp only [true_iff]
+    intro h1; exact hd ⟨h1.1.1, h1.1.2.1, h1.1.2.2.1⟩
+
+example : Zoned.with_ymd_and_hms 3600 1970 1 1 0 30 0 = .ok (some ⟨⟨dateOfYo 1969 365, ⟨84600, 0⟩⟩, 3600⟩) ∧
+    Zoned.with_ymd_and_hms 0 2023 2 29 0 0 0 = .ok none ∧ Zoned.with_ymd_and_hms 0 2024 2 29 23 59 60 = .ok none ∧
+    Zoned.with_ymd_and_hms 1 MIN_YEAR 1 1 0 0 0 = .ok none ∧
+    Zoned.with_ymd_and_hms (-1) MIN_YEAR 1 1 0 0 0 = .ok (some ⟨⟨Date.MIN, ⟨1, 0⟩⟩, -1⟩) ∧
+    Zoned.with_ymd_and_hms 0 (MAX_YEAR + 1) 1 1 0 0 0 = .ok none := by decide +kernel
 
 end Chrono.Props.C04
